@@ -139,6 +139,8 @@ func build(c Case) (*gen.Program, map[string]string, string) {
 		return gen.Limits(c.Op, c.Budget), nil, "kind=" + c.Op + "/size=" + fmt.Sprint(c.Budget)
 	case "stmt":
 		return gen.Replay(c.Choices, gen.Stmts(gen.StmtCfg{Budget: c.Budget, Lean: c.Lean})), nil, ""
+	case "shadow":
+		return gen.Replay(c.Choices, gen.Shadow), nil, ""
 	}
 	return nil, nil, ""
 }
@@ -584,6 +586,10 @@ func main() {
 		c := ac
 		c.Choices = append([]int{}, ch...)
 		exec(c)
+	})
+	phase("shadow")
+	gen.ParallelEnumerate(gen.Shadow, 2, func(p *gen.Program, ch []int) {
+		exec(Case{Family: "shadow", Choices: append([]int{}, ch...)})
 	})
 	phase("stmt")
 	sc := Case{Family: "stmt", Budget: 2}
